@@ -6,7 +6,9 @@ import (
 	"fmt"
 	"go/constant"
 	"go/types"
+	"math"
 	"math/big"
+	"regexp"
 	"sort"
 	"strings"
 
@@ -73,6 +75,14 @@ func isUntypedNum(t T) bool {
 
 // coerce makes numeric literal operands agree in sort.
 func (ev *Env) coerce(a, b T) (T, T) {
+	if a.Sort == "Real" && b.Sort == "Real" {
+		// an untyped constant meeting a typed float64 value takes float64's value (as in Go)
+		if a.GT == untypedFloat && b.GT != untypedFloat {
+			a = roundConst(a, b.GT)
+		} else if b.GT == untypedFloat && a.GT != untypedFloat {
+			b = roundConst(b, a.GT)
+		}
+	}
 	if a.Sort == b.Sort {
 		return a, b
 	}
@@ -86,14 +96,53 @@ func (ev *Env) coerce(a, b T) (T, T) {
 	return a, b
 }
 
+// litRat parses the literal forms produced by ratLit / bigIntLit.
+func litRat(s string) (*big.Rat, bool) {
+	nodes, err := parseSx(s)
+	if err != nil || len(nodes) != 1 {
+		return nil, false
+	}
+	return sxRat(nodes[0])
+}
+
+// roundConst rounds a constant term to the nearest float64 (float32 if the other operand is one).
+func roundConst(c T, to types.Type) T {
+	r, ok := litRat(c.S)
+	if !ok {
+		return c
+	}
+	f, _ := r.Float64()
+	if b, isB := unalias(to).Underlying().(*types.Basic); isB && b.Kind() == types.Float32 {
+		f32, _ := r.Float32()
+		f = float64(f32)
+	}
+	if math.IsInf(f, 0) || math.IsNaN(f) {
+		return c
+	}
+	rr := new(big.Rat)
+	rr.SetFloat64(f)
+	return T{ratLit(rr), "Real", to}
+}
+
 func toRealLit(s string) string {
-	if strings.HasPrefix(s, "(- ") {
+	isDigits := func(x string) bool {
+		if x == "" {
+			return false
+		}
+		for _, c := range x {
+			if c < '0' || c > '9' {
+				return false
+			}
+		}
+		return true
+	}
+	if isDigits(s) {
+		return s + ".0"
+	}
+	if strings.HasPrefix(s, "(- ") && isDigits(strings.TrimSuffix(s[3:], ")")) {
 		return "(- " + strings.TrimSuffix(s[3:], ")") + ".0)"
 	}
-	if strings.ContainsAny(s, "( ") {
-		return "(to_real " + s + ")"
-	}
-	return s + ".0"
+	return "(to_real " + s + ")"
 }
 
 func (ev *Env) eval(e Expr) T {
@@ -139,6 +188,9 @@ func (ev *Env) eval(e Expr) T {
 		return T{ite(c, a.S, b.S), a.Sort, a.GT}
 	case *ELet:
 		v := ev.eval(x.Val)
+		if len(v.S) > 24 {
+			v = T{vc.define("let_"+sanitize(x.Name), v.Sort, v.S), v.Sort, v.GT}
+		}
 		return ev.with(map[string]T{x.Name: v}).eval(x.Body)
 	case *EQuant:
 		return ev.quant(x)
@@ -180,6 +232,25 @@ func (ev *Env) binary(x *EBinary) T {
 	}
 	a := ev.eval(x.X)
 	b := ev.eval(x.Y)
+	// exact folding of constant sub-expressions (untyped constant arithmetic is exact in Go)
+	if isUntypedNum(a) && isUntypedNum(b) && (x.Op == "+" || x.Op == "-" || x.Op == "*" || x.Op == "/") && (a.GT == untypedFloat || b.GT == untypedFloat) {
+		ra, ok1 := litRat(a.S)
+		rb, ok2 := litRat(b.S)
+		if ok1 && ok2 && !(x.Op == "/" && rb.Sign() == 0) {
+			res := new(big.Rat)
+			switch x.Op {
+			case "+":
+				res.Add(ra, rb)
+			case "-":
+				res.Sub(ra, rb)
+			case "*":
+				res.Mul(ra, rb)
+			case "/":
+				res.Quo(ra, rb)
+			}
+			return T{ratLit(res), "Real", untypedFloat}
+		}
+	}
 	a, b = ev.coerce(a, b)
 	rt := a.GT
 	if isUntypedNum(a) {
@@ -308,7 +379,14 @@ func (ev *Env) quant(q *EQuant) T {
 		}
 		trigs = append(trigs, ":pattern ("+strings.Join(ts, " ")+")")
 	}
+	letNames := vc.captureNames()
 	body = vc.popCapture(body)
+	if len(trigs) == 0 && len(q.Vars) == 1 {
+		// default triggers: element accesses s[v] (as at-terms) and function-value applications on v
+		for _, v := range vars {
+			trigs = append(trigs, autoTriggers(body, v.S, letNames)...)
+		}
+	}
 	g := and(guards...)
 	var s string
 	if q.Forall {
@@ -324,6 +402,55 @@ func (ev *Env) quant(q *EQuant) T {
 		kw = "exists"
 	}
 	return T{fmt.Sprintf("(%s (%s) %s)", kw, strings.Join(binders, " "), s), "Bool", types.Typ[types.Bool]}
+}
+
+var atTermRe = regexp.MustCompile(`\(at\.[^\s()]+ [^\s()]+ (?:\([^()]*\)|[^\s()]+) ([^\s()]+)\)`)
+
+func autoTriggers(body, v string, letNames map[string]bool) []string {
+	seen := map[string]bool{}
+	var out []string
+	var matches [][]string
+	for pos := 0; ; {
+		k := strings.Index(body[pos:], "(at.")
+		if k < 0 {
+			break
+		}
+		pos += k
+		if loc := atTermRe.FindStringSubmatchIndex(body[pos:]); loc != nil && loc[0] == 0 {
+			matches = append(matches, []string{body[pos : pos+loc[1]], body[pos+loc[2] : pos+loc[3]]})
+		}
+		pos += 4
+	}
+	for _, m := range matches {
+		if m[1] != v || seen[m[0]] || strings.Contains(m[0], "(ite") {
+			continue
+		}
+		bad := false
+		for _, tok := range strings.FieldsFunc(m[0], func(r rune) bool { return r == ' ' || r == '(' || r == ')' }) {
+			if letNames[tok] {
+				bad = true
+			}
+		}
+		if bad {
+			continue
+		}
+		seen[m[0]] = true
+		out = append(out, ":pattern ("+m[0]+")")
+	}
+	return out
+}
+
+func (vc *VC) captureNames() map[string]bool {
+	names := map[string]bool{}
+	if len(vc.capStack) == 0 {
+		return names
+	}
+	for _, it := range vc.capStack[len(vc.capStack)-1].items {
+		if it.isDef {
+			names[it.name] = true
+		}
+	}
+	return names
 }
 
 // ---- capture: definitions made while evaluating under a binder become let-bindings ------------
@@ -797,6 +924,8 @@ func (ev *Env) callGo(fn *ssa.Function, args []T) T {
 		if isUntypedNum(args[i]) {
 			if isFloat(p.Type()) && args[i].Sort == "Int" {
 				args[i] = T{toRealLit(args[i].S), "Real", p.Type()}
+			} else if isFloat(p.Type()) && args[i].GT == untypedFloat {
+				args[i] = roundConst(args[i], p.Type())
 			}
 		}
 		args[i].GT = p.Type()
@@ -911,6 +1040,9 @@ func (ev *Env) applySpec(sf *SpecFunc, argEs []Expr) T {
 		}
 		if a.GT == nil || isUntypedNum(a) || structOf(gt) != nil || a.GT == types.Typ[types.UntypedNil] {
 			a.GT = gt
+		}
+		if len(a.S) > 24 && sf.Body != nil {
+			a = T{vc.define("arg_"+sanitize(p.Name), a.Sort, a.S), a.Sort, a.GT}
 		}
 		senv.vars[p.Name] = a
 		args[i] = a
@@ -1063,6 +1195,10 @@ func (ev *Env) builtinSpec(name string, argEs []Expr) (T, bool) {
 		vc.regHeap("G_visits", "(Array Int Int)")
 		a := arg(0)
 		return T{fmt.Sprintf("(select %s %s)", vc.heapGet(ev.st, "G_visits"), a.S), "Int", intT}, true
+	case "pow2":
+		vc.decl("pow2f", "(declare-fun pow2f (Int) Int)")
+		vc.decl("pow2f_ax", "(assert (and (= (pow2f 0) 1) (= (pow2f 1) 2) (= (pow2f 2) 4) (= (pow2f 3) 8) (= (pow2f 4) 16) (= (pow2f 8) 256) (= (pow2f 16) 65536) (forall ((k Int)) (! (=> (>= k 0) (and (> (pow2f k) 0) (= (pow2f (+ k 1)) (* 2 (pow2f k))))) :pattern ((pow2f k))))))")
+		return T{fmt.Sprintf("(pow2f %s)", arg(0).S), "Int", intT}, true
 	case "written":
 		return T{vc.ghostGet(ev.st, "G_written", arg(0).S), "Int", intT}, true
 	case "consumed":
